@@ -320,9 +320,13 @@ func run(c lib.Cfg) error {
 	idxPos := false // the position is a table.index entry: every marker, also in the quick tier
 	pick := func() []int {
 		if c.Thorough() || idxPos {
-			ms := make([]int, len(cfg.Markers))
-			for i := range ms {
-				ms[i] = i
+			var ms []int
+			for i, m := range cfg.Markers {
+				// ` desc` and `desc` also occur in constant statements (`order by num desc`):
+				// they are planted at index positions only, where the verdict is about acceptance
+				if idxPos || strings.Contains(m.S, "zq") {
+					ms = append(ms, i)
+				}
 			}
 			return ms
 		}
